@@ -460,7 +460,7 @@ func ConvertSliceValueType(destTyp reflect.Type, v reflect.Value) (reflect.Value
 
 	k := v.Type().Kind()
 	if k != reflect.Slice && k != reflect.Array {
-		return _zeroValue, newCodecError("ConvertSliceValueType", "expect slice type, but get %v, objects: %v", k, v)
+		return _zeroValue, newCodecError("ConvertSliceValueType", "expect slice type, but get %v", v.Type())
 	}
 
 	if v.Len() <= 0 {
